@@ -10,6 +10,8 @@ import (
 	"encoding/binary"
 	"fmt"
 	"io"
+	"os"
+	"path/filepath"
 	"sort"
 	"testing"
 	"time"
@@ -355,4 +357,117 @@ func vfC16Run(c vfSerCase, ctx *vfCtx) *vfViolation {
 	return nil
 }
 
-func TestVerif_C16(t *testing.T) { vfCheck(t, "C16", vfC16Gen, vfC16Run) }
+// vfC16Segments: clause (c) — a store directory with three segments in which one component
+// file of the middle segment is truncated to chosen prefixes / emptied / deleted: Open and
+// searches succeed, exactly the documents of the undamaged segments are found, and the damaged
+// segment contributes all of its documents (cut inside the gzip trailer) or none.
+func vfC16Segments(seedCase *vfSerCase, ctx *vfCtx) *vfViolation {
+	root, err := os.MkdirTemp(vfEnv("VERIF_SCRATCH"), "c16seg-")
+	if err != nil {
+		return vfFail("mkdir: %v", err)
+	}
+	defer os.RemoveAll(root)
+	conf := vfStoreConf{VecKind: "flat", Metric: string(Euclidean), Dim: 2, HasText: true, HasMeta: true, MemLimit: 100000, FlushThr: 1 << 40, CompThr: 5}
+	switch len(seedCase.Kind) % 3 { // vary the configured modalities with the generated case
+	case 1:
+		conf.HasText = false
+	case 2:
+		conf.HasMeta = false
+	}
+	live := filepath.Join(root, "live")
+	st, err := vfOpenStore(live, &conf)
+	if err != nil {
+		return vfFail("Open: %v", err)
+	}
+	segDocs := make([]map[uint32]*vfStoreDoc, 3)
+	everAdded := map[uint32]bool{1<<30 + 900000: true}
+	n := 0
+	for sidx := 0; sidx < 3; sidx++ {
+		segDocs[sidx] = map[uint32]*vfStoreDoc{}
+		for j := 0; j < 2; j++ {
+			n++
+			d := &vfStoreDoc{N: n, Vec: []float32{float32(n), float32(j + 1)}, Word: "fox"}
+			id, err := vfStoreAdd(st, &conf, d)
+			if err != nil {
+				st.Close()
+				return vfFail("add: %v", err)
+			}
+			segDocs[sidx][id] = d
+			everAdded[id] = true
+		}
+		if err := st.Flush(); err != nil {
+			st.Close()
+			return vfFail("Flush: %v", err)
+		}
+	}
+	if err := st.Close(); err != nil {
+		return vfFail("Close: %v", err)
+	}
+	final := vfReadDirImage(live)
+	undamaged := map[uint32]*vfStoreDoc{}
+	for _, sidx := range []int{0, 2} {
+		for id, d := range segDocs[sidx] {
+			undamaged[id] = d
+		}
+	}
+	seq := 0
+	images := int64(0)
+	for _, kindName := range []string{"hybrid", "vector", "text", "metadata"} {
+		name := kindName + "_000002.bin.gz"
+		data, ok := final[name]
+		if !ok {
+			continue
+		}
+		cuts := map[int]bool{0: true}
+		for i := 0; i < 16; i++ {
+			cuts[i*len(data)/16] = true
+		}
+		for i := len(data) - 9; i < len(data); i++ {
+			if i > 0 {
+				cuts[i] = true
+			}
+		}
+		var cl []int
+		for k := range cuts {
+			cl = append(cl, k)
+		}
+		sort.Ints(cl)
+		cl = append(cl, -1) // -1: file missing
+		for _, cut := range cl {
+			img := final.clone()
+			what := name + " missing"
+			if cut >= 0 {
+				img[name] = data[:cut]
+				what = fmt.Sprintf("%s cut to %d of %d bytes", name, cut, len(data))
+			} else {
+				delete(img, name)
+			}
+			seq++
+			images++
+			if v := vfCheckCrashImage(root, seq, img, &conf, undamaged, segDocs[1], everAdded, "segment 2 of 3: "+what); v != nil {
+				return v
+			}
+		}
+	}
+	ctx.Count("images_checked", images)
+	ctx.Count("segment_images_checked", images)
+	ctx.Class("segment_clause_checked")
+	return nil
+}
+
+func TestVerif_C16(t *testing.T) { vfCheck(t, "C16", vfC16Gen, vfC16RunAll) }
+
+var vfC16Counter int
+
+func vfC16RunAll(c vfSerCase, ctx *vfCtx) *vfViolation {
+	if v := vfC16Run(c, ctx); v != nil {
+		return v
+	}
+	// the segment clause is independent of the generated index state: run it for every 16th case
+	vfC16Counter++
+	if vfC16Counter%16 == 1 || ctx.replay {
+		vfInflightSpansSegments = false
+		return vfC16Segments(&c, ctx)
+	}
+	return nil
+}
